@@ -12,7 +12,7 @@ import (
 )
 
 func TestMain(m *testing.M) {
-	vstat.Rule("Condition expressions from the grammar E := E && E | E || E | (E) | NetworkErrorRatio() op FLOAT | ResponseCodeRatio(a,b,c,d) op FLOAT | LatencyAtQuantileMS(q) op INT (six comparisons, minimal parentheses so precedence matters, nesting <= 3); generated check/fallback/recovery durations; histories of clock advances and responses completing with status from {200,201,404,500,502,503,504} and latency = clock advance while in the gate, overlapping completions around trips, several trip/recovery cycles. Oracle: independent three-valued evaluator over the oracle's own record of responses completed since the last trip (counter window: every cut-off between 9 s and 10 s of age; latency histogram: every suffix containing the last 50 s; quantile rank between floor and ceil of q*n/100; 3%+1.5ms band for latency thresholds, 1e-9 for ratios). At every completion that is definitely an evaluation point (later than the previous evaluation + check period) with a definite value: breaker becomes tripped iff the value is true; where it is definitely not an evaluation point the state must not change; unknown values adopt the observation. on-tripped/on-standby run exactly once per observed transition. Non-trivial: >= 2 atoms of different kinds and >= 1 definite-true and >= 1 definite-false evaluation.")
+	vstat.Rule("Condition expressions from the grammar E := E && E | E || E | (E) | NetworkErrorRatio() op FLOAT | ResponseCodeRatio(a,b,c,d) op FLOAT | LatencyAtQuantileMS(q) op INT (six comparisons, minimal parentheses so precedence matters, nesting <= 3); generated check/fallback/recovery durations; histories of clock advances and responses completing with status from {200,201,404,500,502,503,504} and latency = clock advance while in the gate, overlapping completions around trips, several trip/recovery cycles. Oracle: independent three-valued evaluator over the oracle's own record of responses completed since the last trip (counter window: every cut-off between 9 s and 10 s of age; latency histogram: every suffix containing the last 50 s; quantile rank between floor and ceil of q*n/100; 3%+1.5ms band for latency thresholds, 1e-9 for ratios). At every completion that is definitely an evaluation point (later than the previous evaluation + check period) with a definite value: breaker becomes tripped iff the value is true; where it is definitely not an evaluation point the state must not change; unknown values adopt the observation. on-tripped/on-standby run exactly once per observed transition. Non-trivial: >= 2 atoms of different kinds and >= 1 definite-true and >= 1 definite-false evaluation. A third of the drivers have side effects that hang until the case ends (every transition must still start its effect).")
 	vstat.Main(m.Run)
 }
 
